@@ -24,6 +24,15 @@ def _extract_output_file(tokens: list[str]) -> str | None:
             return None
         if t.startswith("-o") and len(t) > 2:
             return t[2:]
+        # -o inside a cluster of short options: -ro file, -rofile
+        if t.startswith("-") and not t.startswith("--") and len(t) > 2:
+            for k, c in enumerate(t[1:], start=1):
+                if c == "o":
+                    if k + 1 < len(t):
+                        return t[k + 1 :]
+                    return tokens[i + 1] if i + 1 < len(tokens) else None
+                if c in "kStT":
+                    break  # takes the rest of the cluster as its own argument
 
         # --output file or --output=file
         if t == "--output":
@@ -32,6 +41,11 @@ def _extract_output_file(tokens: list[str]) -> str | None:
             return None
         if t.startswith("--output="):
             return t[9:]
+        # GNU getopt accepts any unambiguous prefix of --output: --out f, --outp=f
+        if t.startswith("--o") and "--output".startswith(t.split("=", 1)[0]):
+            if "=" in t:
+                return t.split("=", 1)[1]
+            return tokens[i + 1] if i + 1 < len(tokens) else None
 
         i += 1
 
